@@ -404,7 +404,7 @@ func attachRaces(stderr string, rs []*sim.RunResult, prop string) {
 				}
 			}
 			if !dup {
-				r.Violations = append(r.Violations, sim.Violation{Prop: "C14", Class: cls, Detail: clip(strings.ReplaceAll(rep, "\n", " / "), 1500)})
+				r.Violations = append(r.Violations, sim.Violation{Prop: prop, Class: cls, Detail: clip(strings.ReplaceAll(rep, "\n", " / "), 1500)})
 			}
 		}
 	}
